@@ -34,7 +34,7 @@ CLAUSES_EXACT = ["C_ExactNoException", "C_ExactEdges", "C_ExactBoundary", "C_Exa
                  "C_ExactCellAreas", "C_ExactReference"]
 CLAUSES_GEN = ["C_GenOrientation", "C_GenIncidence", "C_GenBoundaryFlags", "C_GenBoundaryIsOutline", "C_GenEuler",
                "C_GenTiling", "C_GenCellAreas", "C_GenDualLengths", "C_GenEdgeVectors", "C_GenTerminals",
-               "C_GenMostlyWellCentred"]
+               "C_GenAnalytic"]
 
 
 def trace_cfg(invariants=()):
@@ -219,6 +219,81 @@ def _poly(tdgl, spec, name):
     return p
 
 
+class Analytic:
+    """A plain primitive as the USER specified it, from first principles (no tdgl code): a w x h rectangle or an a, b
+    ellipse (n vertices) translated to `center` and then turned counter-clockwise by `angle` about (0, 0)."""
+
+    def __init__(self, spec):
+        self.kind = "ellipse" if spec["kind"] in ("ellipse", "circle") else "box"
+        self.c = np.array(spec.get("center", (0, 0)), dtype=float)
+        th = math.radians(spec.get("angle", 0) if spec["kind"] != "circle" else 0)
+        self.R = np.array([[math.cos(th), -math.sin(th)], [math.sin(th), math.cos(th)]])
+        if self.kind == "box":
+            self.w, self.h = float(abs(spec["w"])), float(abs(spec["h"]))
+        else:
+            self.a = float(spec["r"] if spec["kind"] == "circle" else spec["a"])
+            self.b = float(spec["r"] if spec["kind"] == "circle" else spec["b"])
+            self.n = int(spec.get("points", 24 if spec["kind"] == "circle" else 32))
+
+    @staticmethod
+    def plain(spec):
+        return spec["kind"] in ("box", "ellipse", "circle") and not any(spec.get(k) for k in ("union", "minus", "resample"))
+
+    def local(self, xy):        # undo the tilt, then the centring
+        return np.asarray(xy, dtype=float) @ self.R - self.c
+
+    def vertices(self):
+        if self.kind == "box":
+            v = np.array([(-self.w / 2, -self.h / 2), (self.w / 2, -self.h / 2), (self.w / 2, self.h / 2), (-self.w / 2, self.h / 2)])
+        else:
+            t = 2 * math.pi * np.arange(self.n) / self.n
+            v = np.array([self.a * np.cos(t), self.b * np.sin(t)]).T
+        return (v + self.c) @ self.R.T
+
+    def area(self):
+        return self.w * self.h if self.kind == "box" else 0.5 * self.n * self.a * self.b * math.sin(2 * math.pi / self.n)
+
+    def residual(self, xy, U):
+        """rectangle: signed distance to the outline in quanta; ellipse: (x/a)^2 + (y/b)^2 - 1 in units of 1e-6"""
+        x, y = self.local(xy)
+        if self.kind == "box":
+            dx, dy = abs(x) - self.w / 2, abs(y) - self.h / 2
+            d = max(dx, dy) if max(dx, dy) <= 0 else math.hypot(max(dx, 0), max(dy, 0))
+            return max(-10 ** 9, min(10 ** 9, int(round(d * U))))
+        return max(-10 ** 9, min(10 ** 9, int(round(((x / self.a) ** 2 + (y / self.b) ** 2 - 1) * 10 ** 6))))
+
+    def band(self):
+        if self.kind == "box":
+            return -2, 2
+        return int(math.floor((math.cos(math.pi / self.n) ** 2 - 1) * 10 ** 6)) - 50, 50
+
+
+def analytic_record(args, pts, bs, U, q, terms_n):
+    """g.ANA: the generated mesh against the domain computed from the numbers given to the primitives."""
+    from shapely.geometry import LinearRing
+    from shapely.geometry import Polygon as SPolygon
+
+    specs = [args["film"]] + list(args.get("holes", []))
+    if not all(Analytic.plain(s) for s in specs):
+        return {"have": False, "corners": [], "bres": [], "lo": [], "hi": [], "ain": [], "area2": 0, "tcover": []}
+    shapes = [Analytic(s) for s in specs]
+    corners = [q(v) for s in shapes if s.kind == "box" for v in s.vertices()]
+    bands = [s.band() for s in shapes]
+    bres = [{"i": i + 1, "res": [s.residual(pts[i], U) for s in shapes]} for i in range(len(pts)) if bs[i]]
+    ain = []
+    for p in pts:
+        r = [s.residual(p, U) for s in shapes]
+        ain.append(bool(r[0] <= bands[0][1] and all(r[k] >= bands[k][0] for k in range(1, len(shapes)))))
+    area = shapes[0].area() - sum(s.area() for s in shapes[1:])
+    tcover = []
+    tspecs = list(args.get("terminals", []))
+    if tspecs and all(Analytic.plain(t) for t in tspecs):
+        ring = LinearRing(shapes[0].vertices())
+        tcover = [int(round(ring.intersection(SPolygon(Analytic(t).vertices())).length * U)) for t in tspecs]
+    return {"have": True, "corners": corners, "bres": bres, "lo": [b[0] for b in bands], "hi": [b[1] for b in bands], "ain": ain,
+            "area2": int(round(2 * area * U * U)), "tcover": tcover}
+
+
 def gen_trace(tdgl, args, tmp):
     """Build the device, generate the mesh, record the one-state trace."""
     xi = float(args.get("xi", 1.0))
@@ -234,14 +309,24 @@ def gen_trace(tdgl, args, tmp):
                 or any(h.polygon.distance(o.polygon) < 0.05 for o in holes[:k]):
             return {"kind": "invalid", "key": key}
     dev = tdgl.Device("dev", layer=layer, film=film, holes=holes, terminals=terms, length_units=args.get("units", "um"))
+    via = args.get("via", "device")     # which documented route produces the mesh
     try:
-        dev.make_mesh(**args.get("mesh", {}))
+        if via == "polygon.make_mesh":      # Polygon.make_mesh(smooth=n): the mesh of the film polygon alone, in length units
+            if holes or xi != 1.0:
+                raise core.MachineryFailure("polygon.make_mesh route needs a film without holes and xi = 1")
+            dev.mesh = film.make_mesh(**args.get("mesh", {}))
+        else:
+            dev.make_mesh(**args.get("mesh", {}))
+            if via == "mesh.smooth":        # Mesh.smooth(n) on the device's mesh (default create_submesh=True)
+                dev.mesh = dev.mesh.smooth(int(args["smooth_again"]))
+    except core.MachineryFailure:
+        raise
     except Exception as ex:
         return {"kind": "refused", "exc": type(ex).__name__, "msg": str(ex)[:160], "key": key}
-    return observe_device(dev, key, full=True)
+    return observe_device(dev, key, full=True, spec=args)
 
 
-def observe_device(dev, key, full=True):
+def observe_device(dev, key, full=True, spec=None):
     """The quantised one-state record of a meshed device against ITS OWN film, holes and terminals.
     full=False leaves out the per-site / per-edge comparison with the reference formulas."""
     from shapely.geometry import LinearRing, Point
@@ -300,6 +385,8 @@ def observe_device(dev, key, full=True):
     g["stats"] = {"sites": nsites, "triangles": len(tri), "edges": len(edges), "U": U}
     if not full:
         return g
+    g["ANA"] = (analytic_record(spec, pts, g["BS"], U, q, len(terms)) if spec is not None
+                else {"have": False, "corners": [], "bres": [], "lo": [], "hi": [], "ain": [], "area2": 0, "tcover": []})
     # reference formulas on the device coordinates (length units); the code's areas are Device.areas
     redges, W, rarea, wc, ereg, _ = ref_cot(pts, tri)
     pos = {e: n for n, e in enumerate(redges)}
@@ -333,7 +420,7 @@ def strip_trace(t):
     if t["kind"] == "hist":
         return {"kind": "hist", "ev": [{"op": e["op"], "d": e["d"], "res": e["res"], "has": e["has"],
                                         "gs": [strip_placed(g) for g in e["gs"]]} for e in t["ev"]]}
-    keep = ("kind", "holes", "P", "T", "E", "ET", "B", "BS", "OS", "OE", "A", "OUT", "PER", "tol", "SITE", "EDGE", "TERM", "TIN")
+    keep = ("kind", "holes", "P", "T", "E", "ET", "B", "BS", "OS", "OE", "A", "OUT", "PER", "tol", "SITE", "EDGE", "TERM", "TIN", "ANA")
     return {k: t[k] for k in keep}
 
 
